@@ -64,9 +64,9 @@ def numpyise(rng, args, kwargs, single=True):
         n[0] += 1
         if isinstance(v, int):
             return np.int64(v)
-        # (a quarter of the converted floats in single precision: the value that arrives is then the rounded one - the contracts judge
-        # against the arguments as passed)
-        return np.float32(v) if single and rng.random() < 0.25 and abs(v) < 1e30 else np.float64(v)
+        # (a quarter of the converted floats as single-precision scalars where the value is exactly representable)
+        # (value preserving only: other arguments of the same call - precomputed propagators, reference lists - may have been derived from v)
+        return np.float32(v) if single and rng.random() < 0.25 and abs(v) < 1e30 and float(np.float32(v)) == v else np.float64(v)
     return tuple(conv(a) for a in args), {k: conv(v) for k, v in kwargs.items()}, n[0]
 
 
